@@ -4,6 +4,7 @@ module state, for every state and every set of OS answers.
 -/
 import Woodpile.Model.NfsVoucher
 import Woodpile.Proofs.Raffle
+import Woodpile.Proofs.AtomicBaseTime
 
 namespace Woodpile.NfsVoucher
 open Woodpile.Raffle
@@ -305,5 +306,73 @@ theorem run_mem (st : St) (cs : List Call) (r : St × Ret) (h : r ∈ run st cs)
     · exact ⟨[], c, cs, rfl, h⟩
     · obtain ⟨pre, c', suf, h1, h2⟩ := ih _ h
       exact ⟨c :: pre, c', suf, by simp [h1], by simpa [finalState] using h2⟩
+
+end Woodpile.NfsVoucher
+
+namespace Woodpile.NfsVoucher
+open Woodpile.Raffle Woodpile.Abt
+
+/-! ## The cell of this model is the sequential behaviour of the `AtomicBaseTime` programs (gap 10) -/
+
+/-- The crate's voucher check on the naturals of the `Woodpile.Abt` machines
+(`Props/C13R.lean` calls the same function `chkReal`). -/
+def chkNat (b v : Nat) : Bool := Raffle.check baseTimeCheck (UInt64.ofNat b) (UInt64.ofNat v)
+
+/-- The cell of a module state, as the abstract value of an `AtomicBaseTime`. -/
+def absCell (st : St) : Nat × Nat := (st.base.toNat, st.voucher.toNat)
+
+attribute [local irreducible] Woodpile.Raffle.check
+
+theorem chkNat_toNat (t v : UInt64) : chkNat t.toNat v.toNat = Raffle.check baseTimeCheck t v := by
+  simp [chkNat]
+
+/-- `cellUpdate` is `seqUpdate` at the crate's check. -/
+theorem cellUpdate_refines (st : St) (t v : UInt64) :
+    match cellUpdate st t v with
+    | some (st', r) => seqUpdate chkNat (absCell st) t.toNat v.toNat = some (absCell st', r) ∧
+        st'.trusted = st.trusted
+    | none => seqUpdate chkNat (absCell st) t.toNat v.toNat = none := by
+  unfold cellUpdate seqUpdate
+  simp only [absCell, chkNat_toNat]
+  by_cases h1 : t < st.base
+  · have : t.toNat < st.base.toNat := UInt64.lt_iff_toNat_lt.mp h1
+    simp [h1, this]
+  · have : ¬ t.toNat < st.base.toNat := fun h => h1 (UInt64.lt_iff_toNat_lt.mpr h)
+    by_cases h2 : Raffle.check baseTimeCheck t v = true <;> simp [h1, this, h2]
+
+/-- `cellSnapshot` is `seqSnapshot` at the crate's check. -/
+theorem cellSnapshot_refines (st : St) :
+    (cellSnapshot st).map (fun p => (p.1.toNat, p.2.toNat)) = seqSnapshot chkNat (absCell st) := by
+  unfold cellSnapshot seqSnapshot
+  simp only [absCell, chkNat_toNat]
+  by_cases h : Raffle.check baseTimeCheck st.base st.voucher = true <;> simp [h]
+
+/-- `cellSnapshot` / `NfsVoucher.getBaseTimeUnlocked` IS `AtomicBaseTime::snapshot`
+(`Abt.getBaseTimeUnlockedOp`) run alone, and it needs NO quiescence: from any reachable SC
+state - a writer may hold the lock half way through its stores, the mutex may be poisoned -
+whose most recently published pair is the cell of `st`, thread `tid` running
+`get_base_time_unlocked` alone takes four steps, each a load (memory, lock holder, poison flag
+and history are unchanged: no lock operation, no store), and returns exactly the pair the NFS
+model's `getBaseTimeUnlocked st` returns, leaving `st` unchanged. -/
+theorem unlocked_refines {v0 : Nat} (h0 : chkNat 0 v0 = true) {s : SC.State} (h : SC.Reachable chkNat v0 s)
+    (tid : Nat) (hterm : (s.thr tid).pc.terminal = true) (st : St) (hcell : SC.cellOf s = some (absCell st)) :
+    getBaseTimeUnlocked st = (st, .pair st.base st.voucher) ∧
+    cellSnapshot st = some (st.base, st.voucher) ∧
+    ∃ s', SC.run chkNat s (.start tid getBaseTimeUnlockedOp :: List.replicate 4 (.run tid 0)) = some s' ∧
+      (s'.thr tid).pc = .retSnap ∧ (s'.thr tid).base = st.base.toNat ∧ (s'.thr tid).bits = st.voucher.toNat ∧
+      s'.mem = s.mem ∧ s'.held = s.held ∧ s'.poisoned = s.poisoned ∧ s'.hist = s.hist := by
+  have hI := SC.inv_reachable (chk := chkNat) h0 h
+  obtain ⟨hs1, s', a, b, c, d⟩ := SC.snapshot_refines hI tid hterm (absCell st) hcell
+  have hinv : Inv st := by
+    have := cellSnapshot_refines st
+    rw [hs1] at this
+    unfold cellSnapshot at this
+    by_cases hc : Raffle.check baseTimeCheck st.base st.voucher = true
+    · exact hc
+    · simp [hc] at this
+  refine ⟨getBaseTimeUnlocked_inv st hinv, cellSnapshot_inv st hinv, s', a, b, ?_, ?_, d⟩
+  · have := congrArg Prod.fst c; simpa [absCell] using this
+  · have := congrArg Prod.snd c; simpa [absCell] using this
+
 
 end Woodpile.NfsVoucher
